@@ -2149,6 +2149,131 @@ def gen_cigar_classes():
 
 
 
+# ---------------------------------------------------------------------------------------------------
+# C04: model construction constants (added by the C04 builder; add-only)
+# ---------------------------------------------------------------------------------------------------
+
+def _vertex_list(tree, fname):
+    """`return v[0] in [VERTEX_a, VERTEX_b]` -> ['VERTEX_a', 'VERTEX_b']"""
+    fn = find_def(tree, fname)
+    rets = [n for n in ast.walk(fn) if isinstance(n, ast.Return)]
+    if len(rets) != 1:
+        raise TranslationError("%s: expected one return" % fname)
+    r = rets[0].value
+    if not (isinstance(r, ast.Compare) and len(r.ops) == 1 and isinstance(r.ops[0], ast.In)
+            and ast.unparse(r.left) == "v[0]" and isinstance(r.comparators[0], (ast.List, ast.Tuple, ast.Set))):
+        raise TranslationError("%s: expected `v[0] in [...]`" % fname)
+    names = []
+    for e in r.comparators[0].elts:
+        if not isinstance(e, ast.Name):
+            raise TranslationError("%s: unexpected element" % fname)
+        names.append(e.id)
+    return names
+
+
+def gen_model_construction():
+    """Gen/ModelConstruction.lean: StrandnessReportingLevel, the VERTEX_* codes of the intron graph, the typed
+    report_canonical column of the construction presets, the CLI default of --report_canonical, the `auto` rule and the
+    allowed event set of is_matching_assignment"""
+    out = ["-- GENERATED by harness/translate.py (gen_model_construction) -- do not edit",
+           "import IsoVerif.Gen.Enums", "namespace IsoVerif.Gen", ""]
+    info = {}
+    gb = parse("src/graph_based_model_construction.py")
+    cname = "StrandnessReportingLevel"
+    mem = enum_members(find_def(gb, cname))
+    info[cname] = mem
+    out.append("inductive %s where" % cname)
+    for m, _ in mem:
+        out.append("  | %s" % lean_ident(m))
+    out.append("  deriving DecidableEq, Repr, Inhabited\n")
+    out.append("namespace %s" % cname)
+    out.append("def allMembers : List %s := [%s]" % (cname, ", ".join("." + lean_ident(m) for m, _ in mem)))
+    out.append("def value : %s → Nat" % cname)
+    for m, v in mem:
+        out.append("  | .%s => %d" % (lean_ident(m), v))
+    out.append("def name : %s → String" % cname)
+    for m, _ in mem:
+        out.append("  | .%s => \"%s\"" % (lean_ident(m), m))
+    out.append("def ofName? (s : String) : Option %s := allMembers.find? (fun x => x.name == s)" % cname)
+    out.append("end %s\n" % cname)
+    names = {m for m, _ in mem}
+    for need in ("only_canonical", "only_stranded", "all", "auto"):
+        if need not in names:
+            raise TranslationError("StrandnessReportingLevel.%s missing" % need)
+    # vertex codes
+    ig = parse("src/intron_graph.py")
+    vnames = [n.targets[0].id for n in ig.body if isinstance(n, ast.Assign) and isinstance(n.targets[0], ast.Name)
+              and n.targets[0].id.startswith("VERTEX_")]
+    vc = module_int_consts(ig, vnames)
+    for need in ("VERTEX_polya", "VERTEX_read_end", "VERTEX_polyt", "VERTEX_read_start"):
+        if need not in vc or not isinstance(vc[need], int):
+            raise TranslationError("intron_graph.%s missing" % need)
+    info["vertex_codes"] = vc
+    for k in vnames:
+        out.append("def %s : Int := %s" % (k, ("(%d)" % vc[k]) if vc[k] < 0 else str(vc[k])))
+    term = _vertex_list(ig, "is_terminal_vertex")
+    start = _vertex_list(ig, "is_starting_vertex")
+    info["is_terminal_vertex"] = term
+    info["is_starting_vertex"] = start
+    out.append("def terminal_vertex_codes : List Int := [%s]" % ", ".join(term))
+    out.append("def starting_vertex_codes : List Int := [%s]" % ", ".join(start))
+    out.append("")
+    # typed report_canonical column of the construction presets
+    iq = parse("isoquant.py")
+    fn = find_def(iq, "set_model_construction_options")
+    fields, rows = namedtuple_table(fn)
+    if "report_canonical" not in fields:
+        raise TranslationError("construction presets: report_canonical column missing")
+    ci = fields.index("report_canonical")
+    lv = []
+    for k, r in rows.items():
+        txt = r[ci]
+        if not txt.startswith(cname + ".") or txt.split(".", 1)[1] not in names:
+            raise TranslationError("construction preset %s: report_canonical = %s" % (k, txt))
+        lv.append((k, txt.split(".", 1)[1]))
+    info["construction_report_level"] = lv
+    out.append("def construction_report_level : List (String × %s) := [%s]"
+               % (cname, ", ".join('("%s", %s.%s)' % (k, cname, lean_ident(m)) for k, m in lv)))
+    # the `auto` rule: args.report_canonical_strategy = StrandnessReportingLevel[args.report_canonical];
+    #                  if == auto: = strategy.report_canonical
+    src = ast.unparse(fn)
+    if "args.report_canonical_strategy = StrandnessReportingLevel[args.report_canonical]" not in src or \
+            "if args.report_canonical_strategy == StrandnessReportingLevel.auto:\n        args.report_canonical_strategy = strategy.report_canonical" not in src:
+        raise TranslationError("set_model_construction_options: report_canonical wiring changed")
+    out.append("/-- last lines of `set_model_construction_options` -/")
+    out.append("def effective_report_level (cli preset : %s) : %s := if cli = .auto then preset else cli" % (cname, cname))
+    # CLI default of --report_canonical
+    dflt = None
+    for n in ast.walk(iq):
+        if isinstance(n, ast.Call) and any(isinstance(a, ast.Constant) and a.value == "--report_canonical" for a in n.args):
+            for kw in n.keywords:
+                if kw.arg == "default":
+                    dflt = ast.unparse(kw.value)
+    if dflt is None or not (dflt.startswith(cname + ".") and dflt.endswith(".name")):
+        raise TranslationError("--report_canonical default not found: %s" % dflt)
+    dm = dflt[len(cname) + 1:-len(".name")]
+    if dm not in names:
+        raise TranslationError("--report_canonical default %s" % dflt)
+    info["report_canonical_cli_default"] = dm
+    out.append("def report_canonical_cli_default : %s := .%s" % (cname, lean_ident(dm)))
+    out.append("")
+    # is_matching_assignment
+    ia = parse("src/isoform_assignment.py")
+    fn = find_def(ia, "is_matching_assignment")
+    allowed = None
+    for n in ast.walk(fn):
+        if isinstance(n, ast.Assign) and isinstance(n.targets[0], ast.Name) and n.targets[0].id == "allowed_set":
+            allowed = attr_members(n.value, "MatchEventSubtype")
+    if allowed is None:
+        raise TranslationError("is_matching_assignment: allowed_set not found")
+    info["matching_allowed_events"] = allowed
+    out.append("def matching_allowed_events : List MatchEventSubtype := %s" % lean_list("MatchEventSubtype", allowed))
+    out.append("\nend IsoVerif.Gen\n")
+    return "\n".join(out), info
+
+
+
+
 GENERATORS = [("Prims", gen_prims), ("Enums", gen_enums), ("EventClasses", gen_event_classes),
               ("Strategies", gen_strategies), ("Constants", gen_constants), ("SharedState", gen_shared_state),
               ("SetSites", gen_set_sites),            # C06
@@ -2159,6 +2284,7 @@ GENERATORS = [("Prims", gen_prims), ("Enums", gen_enums), ("EventClasses", gen_e
               ("ReadGroups", gen_read_groups),         # C09
               ("CigarClasses", gen_cigar_classes),    # C16
               ("Resolver", gen_resolver),             # C08
+              ("ModelConstruction", gen_model_construction),   # C04
               ]
 
 
